@@ -13,6 +13,7 @@
 // The only state the threads share on purpose is the barrier below (a mutex and a condition variable) and what libtins
 // itself keeps at namespace scope - the object of the property.
 #include "vh.h"
+#include <tins/tcp_stream.h>
 #include "catalogue.h"
 #include "touch.h"
 #include "wifi_enc.h"
@@ -227,6 +228,14 @@ static void wl_reasm(uint64_t seed, int iters, Dig& d, Yield& y) {
             pk.push_back(Mk::seg(ca, sa, cp, sp, (uint32_t)(cisn + 1 + stream.size()), sisn + 31, TCP::FIN | TCP::ACK, Bytes()));
             pk.push_back(Mk::seg(sa, ca, sp, cp, sisn + 31, (uint32_t)(cisn + 2 + stream.size()), TCP::FIN | TCP::ACK, Bytes()));
             for (size_t k = 0; k < pk.size(); ++k) { try { Bytes b = pk[k].serialize(); EthernetII e(b.data(), (uint32_t)b.size()); fol.process_packet(e); } catch (std::exception& ex) { d.s(typeid(ex).name()); } y(); }
+            // the same connection (and a second one) through the legacy follower of this thread: the identifiers it gives its streams
+            // and what it delivers are part of the result
+            TCPStreamFollower old;
+            auto data_fun = [dp](TCPStream& st) { dp->u(st.id()); dp->bytes(st.client_payload()); dp->bytes(st.server_payload()); st.client_payload().clear(); st.server_payload().clear(); dp->ok(); };
+            auto end_fun = [dp](TCPStream& st) { dp->u(0xe0d000 + st.id()); };
+            for (int conn = 0; conn < 2; ++conn)
+                for (size_t k = 0; k < pk.size(); ++k) { try { Bytes b = pk[k].serialize(); EthernetII e(b.data(), (uint32_t)b.size()); if (conn) { e.rfind_pdu<TCP>().sport(e.rfind_pdu<TCP>().sport() == sp ? sp : (uint16_t)(cp + 7)); e.rfind_pdu<TCP>().dport(e.rfind_pdu<TCP>().dport() == sp ? sp : (uint16_t)(cp + 7)); }
+                        std::vector<PDU*> v(1, &e); old.follow_streams(v.begin(), v.end(), data_fun, end_fun); } catch (std::exception& ex) { d.s(typeid(ex).name()); } y(); }
         }
     }
 }
